@@ -355,7 +355,7 @@ pub fn run(ctx: &mut Ctx) {
         "the restored twin gets the same set_datarate/set_adr calls as the original".into(),
     ];
     let seed = ctx.seed;
-    let cases = ctx.tier.pick(5_000u32, 150_000);
+    let cases = ctx.tier.pick(10_000u32, 150_000);
     let nthreads = ctx.threads as u32;
     ctx.parallel(|ti, _n, st| {
         let f = run_proptest(history_strategy(), cases / nthreads + 1, seed ^ 0xC20 ^ ((ti as u64) << 36), st, |h, st| {
